@@ -13,7 +13,7 @@ use serde::{Deserialize, Serialize};
 use serde_json::json;
 use std::str::FromStr;
 
-pub const RULE: &str = "generated: high-entropy secrets (20-40 random characters, so substring hits are not accidental), requests accepted and refused at every rule (defect sets from the C13 catalogue) with scripted provider answers. Observed: every log record at DEBUG level or above emitted during validation (capturing `log` logger at max level Trace so TRACE formatting code runs too), Display and {:?}/{:#?} of every returned error, of all five key types, of the provider request/response, of builders, of CanonicalRequest, SigV4Authenticator and SigV4AuthenticatorResponse. Oracle: none of them contains the secret, any derived key (kDate, kRegion, kService, kSigning) or -- when the presented signature is wrong -- the signature the reference model computes, rendered raw, hex (lower/upper), base64 (standard / URL-safe, padded or not) or as a decimal / hex byte list ('[67, 28, ...]', the shape a derived Debug prints). Non-trivial: a refused request with a wrong but well-formed signature, or a rendering of a value that holds key material; distinct by (secret, defect set, carrier).";
+pub const RULE: &str = "generated: high-entropy secrets (20-40 random characters, so substring hits are not accidental), requests accepted and refused at every rule (defect sets from the C13 catalogue) with scripted provider answers. One sub-check presents the same refused request 2-101 times in a row with nothing else validated in between anywhere in the process. Observed: every log record at DEBUG level or above emitted during validation (capturing `log` logger at max level Trace so TRACE formatting code runs too), Display and {:?}/{:#?} of every returned error, of all five key types, of the provider request/response, of builders, of CanonicalRequest, SigV4Authenticator and SigV4AuthenticatorResponse. Oracle: none of them contains the secret, any derived key (kDate, kRegion, kService, kSigning) or -- when the presented signature is wrong -- the signature the reference model computes, rendered raw, hex (lower/upper), base64 (standard / URL-safe, padded or not) or as a decimal / hex byte list ('[67, 28, ...]', the shape a derived Debug prints). Non-trivial: a refused request with a wrong but well-formed signature, or a rendering of a value that holds key material; distinct by (secret, defect set, carrier).";
 
 #[derive(Clone, Debug, Serialize, Deserialize)]
 pub struct LeakCase {
